@@ -166,8 +166,8 @@ def _fallible_operand_before_built_early(expr: str) -> bool:
 
     tree = _ast.parse(expr, mode="eval")
     for node in _ast.walk(tree):
-        if isinstance(node, _ast.Compare):
-            continue
+        if isinstance(node, _ast.Compare) and len(node.comparators) > 1:
+            continue   # chains are rewritten by BranchBuilder.visit_Compare, which binds the leftmost operand
         ops = [c for c in _ast.iter_child_nodes(node) if isinstance(c, _ast.expr)]
         for i, o in enumerate(ops):
             if fallible_no_call(o) and any(built_early(l) for l in ops[i + 1:]):
